@@ -652,6 +652,7 @@ package redis
 
 //@ func handleHotKey
 //@   prop C14 C19 C02
+//@   requires u != nil && u.hkc != nil
 //@   consumes req
 //@   nocall MakeRequest
 //@   nocall Send
